@@ -104,4 +104,29 @@ pub fn run(cx: &mut Ctx) {
             cb(&|| format!("Phase({}/{}).limit_denominator({})", n, d, m), res);
         } } }
     });
+    cx.check("float_round_trip", |cb| {
+        // floats of moderate size: from_f64 lands on the class of f modulo 2 (representative in (-1, 1]) to within rounding, to_f64 reads it back,
+        // the From impls agree with the methods, and a canonical phase survives to_f64 -> from_f64 to within rounding
+        let wrap = |f: f64| { let mut r = f % 2.0; if r > 1.0 { r -= 2.0; } if r <= -1.0 { r += 2.0; } r };
+        let near = |a: f64, b: f64| (a - b).abs() < 1e-9 || (a - b).abs() > 2.0 - 1e-9;     // -1 and 1 are the same class
+        let mut fs: Vec<f64> = vec![0.0, 0.5, -0.5, 1.0, -1.0, 0.25, 0.75, -0.75, 1.5, -1.5, 2.0, 3.25, -7.125, 0.1, -0.3, 1.0 / 3.0, 2.0 / 3.0, 0.999, -0.999, 123.456, -98.7654321, 1e-3, 1e-6];
+        let mut r = crate::c04::Rng(0xc16_f10a7);
+        for _ in 0..300 * crate::scale() { let n = r.below(4001) as i64 - 2000; let d = 1 + r.below(64) as i64; fs.push(n as f64 / d as f64); }
+        for f in fs {
+            let res = (|| {
+                let p = guard(|| Phase::from_f64(f))?;
+                let (n, d) = pr(p);
+                if !(d > 0 && -d < n && n <= d) { return Err(format!("from_f64 gives the representative {}/{} outside (-1, 1]", n, d)); }
+                let back = guard(|| p.to_f64())?;
+                if !near(back, wrap(f)) { return Err(format!("to_f64(from_f64(f)) = {} but f is {} modulo 2", back, wrap(f))); }
+                let p2: Phase = guard(|| f.into())?; if p2 != p { return Err("From<f64> differs from from_f64".to_string()); }
+                let b2: f64 = guard(|| p.into())?; if b2 != back { return Err("From<Phase> for f64 differs from to_f64".to_string()); }
+                if (n as f64 / d as f64 - back).abs() > 1e-12 { return Err(format!("to_f64 = {} but the stored rational is {}/{}", back, n, d)); }
+                let again = guard(|| Phase::from_f64(back))?;
+                if !near(guard(|| again.to_f64())?, back) { return Err("a canonical phase does not survive to_f64 -> from_f64".to_string()); }
+                Ok(())
+            })();
+            cb(&|| format!("f = {:?}", f), res);
+        }
+    });
 }
